@@ -224,6 +224,15 @@ func (d *driver) ExecLocal(tx *types.Transaction, receipt *types.ReceiptData, in
 			if err := d.GetLocalDB().Set([]byte(op.K), []byte(op.V)); err != nil {
 				return nil, err
 			}
+		case "lchain":
+			// overwrite K and remember the value it replaces under a per-transaction side key (the way the built-in
+			// executors keep "previous" rows): undoing restores exactly only in reverse order of execution
+			prev := []byte("\x00absent")
+			if cur, err := d.GetLocalDB().Get([]byte(op.K)); err == nil && len(cur) > 0 {
+				prev = cur
+			}
+			set.KV = append(set.KV, &types.KeyValue{Key: []byte(op.K), Value: []byte(op.V)},
+				&types.KeyValue{Key: chainPrevKey(op.K, tx), Value: prev})
 		}
 	}
 	if p.FailLocal {
@@ -238,12 +247,24 @@ func (d *driver) ExecDelLocal(tx *types.Transaction, receipt *types.ReceiptData,
 		return &types.LocalDBSet{}, nil
 	}
 	set := &types.LocalDBSet{}
-	for _, op := range p.Local {
+	for i := len(p.Local) - 1; i >= 0; i-- {
+		op := p.Local[i]
 		if op.Op == "lset" {
 			set.KV = append(set.KV, &types.KeyValue{Key: []byte(op.K), Value: nil})
 		}
+		if op.Op == "lchain" {
+			prev, err := d.GetLocalDB().Get(chainPrevKey(op.K, tx))
+			if err != nil || string(prev) == "\x00absent" {
+				prev = nil
+			}
+			set.KV = append(set.KV, &types.KeyValue{Key: []byte(op.K), Value: prev}, &types.KeyValue{Key: chainPrevKey(op.K, tx), Value: nil})
+		}
 	}
 	return set, nil
+}
+
+func chainPrevKey(k string, tx *types.Transaction) []byte {
+	return []byte(fmt.Sprintf("%s-prev-%x", k, tx.Hash()[:8]))
 }
 
 // NewTx builds a signed transaction for executor execName carrying program p.
